@@ -163,7 +163,11 @@ def build(seed, tier, log=vp.log):
     withsx = [g for g in gs if g.sexpr]
     creq = ["grammar\t%s\t%s" % (g.gid, g.sexpr) for g in withsx]
     creq += ["compile\t%s\t%s\t%s" % (g.gid, derive_arg(g), ctx_arg(g)) for g in withsx]
-    cout = vp.pipe_lines(model, creq)[len(withsx):]
+    creq += ["wf\t%s" % g.gid for g in withsx]
+    cout_all = vp.pipe_lines(model, creq)
+    cout = cout_all[len(withsx):2 * len(withsx)]
+    for g, a in zip(withsx, cout_all[2 * len(withsx):]):
+        g.wf = (a == "WF\t1") if a.startswith("WF\t") else None     # WellFormed.well_formed of the grammar
     for g, a in zip(withsx, cout):
         g.mcompile = a
         if a.startswith("OK\t") and g.gen == "CODE":
